@@ -8,6 +8,11 @@ import TorrentVerif.Model.Creators
   (and `_parse_tree`) on the value `pyben.load` hands out, and the whole rebuild of ONE metafile
   from its bytes (`Metadata(path)` followed by `Metadata.rebuild(filemap, dest)`).
 
+  Models the code after commit 777cf99: the single-file rule of a `meta version` 2 metafile
+  (`list(tree) == [name] and "" in tree[name]`, `Impl.extractV2`) only applies when `info` has no
+  `files` key; with a `files` key (hybrid torrent of a directory) the tree is always parsed below
+  the torrent's name.
+
   Nothing of `Model/Rebuild.lean` is re-modelled: the bencoded `files` list / `file tree` is turned
   into the structured arguments of `Impl.extractV1Multi` / `extractV1Single` / `extractV2`
   (`Impl.v1Entry`, `Impl.toMetaTree`), the matching is `Impl.matchV1` / `Impl.matchV2`.
@@ -157,7 +162,9 @@ def extractMeta (mf : BVal) : Except RF.Err RebuildMeta := do
       match ← RF.sub infoV K.fileTree with                        -- `info["file tree"]`
       | .dict tree =>
         let es ← toMetaEntries tree
-        let files := extractV2 name es
+        -- `"files" not in info and list(tree) == [name] and "" in tree[name]` (commit 777cf99: a
+        -- hybrid torrent of a directory lists its `files`, so it is never taken for a single file)
+        let files := if dictHas info K.files then parseTree [name] es else extractV2 name es
         .ok ⟨name, pl, mv, pieces, files, nameSet (files.map (·.filename))⟩
       | _ => .error .typeError
     else
